@@ -22,7 +22,7 @@ from harness.translate import status as tr
 
 THEOREMS = [
     "reuse_changes_nothing", "routeCall_answer", "keys_raise_rejects_and_changes_nothing", "disabled_always_new",
-    "registered_only_by_registration", "new_only_when_none_registered",
+    "registered_only_by_registration", "new_only_when_none_registered", "keyIn_symm",
 ]
 
 CONFIGS = [
